@@ -84,6 +84,25 @@ static bool check_value(int k, uint64_t raw) {
     Sink sink; sink_to_buffer(&sink, &sb);
     rc = enc_sink(k, &sink, raw);
     if (rc != (int)want.size() || sb.used != want.size() || memcmp(sinkmem, want.data(), want.size()) != 0) ok = F("to-sink", "to_sink emitted other octets / count");
+    // to a sink whose driver, before it takes the chunk, writes a record header of its own: another varint (its complement) into a second sink.
+    // (A length-delimiting record sink does exactly this; the encoder must not keep the octets it is still sending where the nested call puts its own.)
+    {
+        struct Nest { int k; uint64_t other; uint8_t outer[24]; size_t on = 0; uint8_t inner[24]; ByteBuffer ib; Sink isink; int inner_rc = 0; bool done = false; } nest;
+        nest.k = k; nest.other = ~raw & (k < 2 ? 0xffffffffull : ~0ull);
+        byte_buffer_space(&nest.ib, nest.inner, sizeof nest.inner); sink_to_buffer(&nest.isink, &nest.ib);
+        Sink outer;
+        chunk_sink_init(&outer, [](void *d, const void *p, size_t n) -> ssize_t {
+            Nest *x = (Nest *)d;
+            if (!x->done) { x->done = true; x->inner_rc = enc_sink(x->k, &x->isink, x->other); }
+            if (x->on + n > sizeof x->outer) return -ENOMEM;
+            memcpy(x->outer + x->on, p, n); x->on += n;
+            return (ssize_t)n;
+        }, &nest);
+        rc = enc_sink(k, &outer, raw);
+        std::vector<uint8_t> want2 = ref::varint_encode(nest.other);
+        if (rc != (int)want.size() || nest.on != want.size() || memcmp(nest.outer, want.data(), want.size()) != 0) ok = F("to-sink-nested:outer", "a sink driver that encodes another varint before taking the chunk received other octets than the encoding");
+        else if (nest.inner_rc != (int)want2.size() || nest.ib.used != want2.size() || memcmp(nest.inner, want2.data(), want2.size()) != 0) ok = F("to-sink-nested:inner", "the varint encoded from inside the sink driver is wrong");
+    }
     // decode the encoding: exact-size buffer
     uint8_t *ex = FAST ? stackmem : (uint8_t *)malloc(want.size());
     memcpy(ex, want.data(), want.size());
